@@ -68,6 +68,12 @@ class ProgGen:
         return {"k": "gate", "p": self.owner, "id": self.n_gate}
 
     def chain(self, streams, canon_p=0.25, local_p=0.15, first=None):
+        if self.r.random() < 0.15:
+            # a value from another peer, a canon at the owner, then an append only the owner can perform: in the run
+            # that merges the other peer's data the owner handles previous, current and new values at once
+            s = first or self.r.choice(streams)
+            return seq([self.call(s, self.r.choice(self.peers[1:])), dict(self.canon(s, self.owner), see=self.r.random() < 0.4),
+                        self.ap(s) if self.r.random() < 0.6 else self.call(s, self.owner)])
         n = self.r.choice([1, 1, 2, 2, 3])
         xs = []
         for i in range(n):
@@ -207,7 +213,7 @@ HOLE_REPLAY = {
 
 
 def gen_cases(rng, tier, escalate=False):
-    n = {"quick": 140, "thorough": 2500}[tier] * (3 if escalate else 1)
+    n = {"quick": 100, "thorough": 2500}[tier] * (3 if escalate else 1)
     cases = [history(rng) for _ in range(n)]
     # the size limit: one below, at, and above STREAM_MAX_SIZE (the driver is told how many appends the program attempts)
     totals = [1023, 1024] if tier == "quick" else [1, 31, 32, 33, 1000, 1022, 1023, 1024, 1025, 1056]
@@ -261,7 +267,7 @@ def evaluate(pid, cases, result, checks, nontrivial, classify=None, shard_size=1
                 if len(result["samples"]) < 3 and (ci + ti) % 5 == 0:
                     result["samples"].append({"script": o.get("script"), "info": inf, "term": t[:1500]})
     if not terms:
-        return
+        return outs
     fails, errs = vlib.coq_eval_cases(pid, HEADER, TYPE, checks, terms, shard_size=shard_size)
     result["errors"].extend(errs)
     for name, idxs in fails.items():
@@ -278,3 +284,4 @@ def evaluate(pid, cases, result, checks, nontrivial, classify=None, shard_size=1
                 if key:
                     bump("known/" + key)
                 result["oracle_fail"].append(entry)
+    return outs
